@@ -22,9 +22,11 @@ package run
 //@ func (*Result).Failed
 //@   props C08
 //@   requires wfResult(r)
-//@   requires r.snapshot.SuccessfulIterationDurations.Count <= 100000000000000000
-//@   requires r.snapshot.FailedIterationDurations.Count <= 100000000000000000
-//@   requires r.snapshot.DroppedIterationCount <= 100000000000000000
+//@   note assumed magnitudes (uint64 products must not wrap): each count <= 10^15, max-failures-rate <= 1000 percent
+//@   requires r.snapshot.SuccessfulIterationDurations.Count <= 1000000000000000
+//@   requires r.snapshot.FailedIterationDurations.Count <= 1000000000000000
+//@   requires r.snapshot.DroppedIterationCount <= 1000000000000000
+//@   requires r.runOptions.MaxFailuresRate <= 1000
 //@   modifies nothing
 //@   ensures [verdict] result <==> ( len(r.errors) > 0
 //@        || (!r.runOptions.IgnoreDropped && r.snapshot.DroppedIterationCount > 0)
